@@ -14,6 +14,8 @@ Require Import Selen.Model.LP Selen.Model.Limits Selen.Generated.Consts.
 Require Import Selen.Model.Gac Selen.Model.Props.AllDiff.
 Require Import Selen.Model.B64 Selen.Model.FloatInterval Selen.Model.CtxFloat.
 Require Import Selen.Model.Api Selen.Model.Lower Selen.Model.Routes.
+Require Import Selen.Model.Checked.
+Require Import Selen.Model.Sudoku.
 Extraction Language OCaml.
 Set Extraction AccessOpaque.
 Cd "Extract".
@@ -44,5 +46,9 @@ Extraction "selen_model.ml"
   ulp_of prev_float next_float precision_to_step_size fi_new fi_with_step fi_with_step_unchecked fi_next fi_prev fi_contains
   fi_is_empty fi_is_fixed fi_size fi_step_count fi_round_to_step fi_floor_to_step fi_ceil_to_step fi_intersect fi_intersects
   fi_assign fi_remove_below fi_remove_above fi_mid fi_save fi_restore tsmin_ff tsmax_ff tsmin_fi tsmax_fi ceil_as_i32 floor_as_i32
-  tsmin_range_f tsmax_range_f fop_apply fop_run magn_b magn_op_b.
+  tsmin_range_f tsmax_range_f fop_apply fop_run magn_b magn_op_b
+  lin_in_rangeb cons_in_rangeb expr_in_rangeb emag boundedb add_in_rangeb sum_in_rangeb view_in_rangeb vset_in_rangeb
+  cprune_lin_eq cprune_lin_le cprune_lin_ne cprune_lin_eq_reif cprune_lin_le_reif cprune_lin_ne_reif cprune_add cprune_sum cvbnd cvset
+  parse_string solve_sudoku_exec solve_sudoku_string_exec solve_general_exec valid_sudokub agreesb clues_okb
+  new_cands apply_advanced sudoku_posts sudoku_store sudoku_props general_store general_props validate_ad units first_solution.
 Cd "..".
